@@ -955,11 +955,11 @@ func diffP(got, want []ref.Pair) string {
 func init() {
 	Register(&Check{ID: "C06", Level: "exploration", Engine: "drv", QuickRuns: 8000, ThoroughS: 600, Race: true, RunTimeout: 90 * time.Second, Components: map[string]string{
 		"tree/nodedb/batch/cache/iterators/proofs/export, async pruner": "real",
-		"goroutine scheduling": "real goroutines, order decided by the simulated Scheduler at guarded hook points, lock-free storage calls and harness operation boundaries",
-		"clock":                "simulated (the pruner's two sleeps)",
-		"storage":              "SimDB",
+		"goroutine scheduling":              "real goroutines, order decided by the simulated Scheduler at guarded hook points, lock-free storage calls and harness operation boundaries",
+		"clock":                             "simulated (the pruner's two sleeps)",
+		"storage":                           "SimDB",
 		"real readers (mode commit-window)": "real goroutines queued on the library's own locks; the locks decide the order, the harness only waits for 'blocked or done'",
-		"race detection":       "Go race detector (race build); the scheduler's hand-off and the harness's shared integers are hidden from it, so it reports exactly the accesses iavl's own synchronisation does not order",
+		"race detection":                    "Go race detector (race build); the scheduler's hand-off and the harness's shared integers are hidden from it, so it reports exactly the accesses iavl's own synchronisation does not order",
 	},
 		Assumptions: []string{
 			"the writer prunes only versions no reader holds (lease registry in the harness), as the statement says ('other versions')",
